@@ -1,4 +1,71 @@
 package main
 
+import (
+	"go/ast"
+	"sort"
+)
+
 func factsState(p *pkg, o *out) {
+	tracker := []string{"Wipe", "NewNick", "GetNick", "ReNick", "DelNick", "delNick", "NickInfo", "NickModes", "NewChannel", "GetChannel",
+		"DelChannel", "delChannel", "Topic", "ChannelModes", "Me", "IsOn", "Associate", "Dissociate", "String"}
+	for _, m := range tracker {
+		o.shapeDefAs(p, "stateTracker", m, "st_")
+	}
+	o.shapeDefAs(p, "", "NewTracker", "st_")
+	for _, m := range []string{"Nick", "isOn", "addChannel", "delChannel", "parseModes"} {
+		o.shapeDefAs(p, "nick", m, "st_")
+	}
+	for _, m := range []string{"Channel", "isOn", "addNick", "delNick", "parseModes"} {
+		o.shapeDefAs(p, "channel", m, "st_")
+	}
+	o.shapeDefAs(p, "NickMode", "Copy", "st_")
+	o.shapeDefAs(p, "ChanMode", "Copy", "st_")
+	o.shapeDefAs(p, "ChanPrivs", "Copy", "st_")
+	o.shapeDefAs(p, "", "newNick", "st_")
+	o.shapeDefAs(p, "", "newChannel", "st_")
+	// lock discipline of the exported tracker methods: first statements of each body
+	var disc []string
+	for _, fd := range p.allFuncs() {
+		if fd.Recv == nil || fd.Body == nil || !ast.IsExported(fd.Name.Name) {
+			continue
+		}
+		t := fd.Recv.List[0].Type
+		if se, ok := t.(*ast.StarExpr); ok {
+			t = se.X
+		}
+		if id, ok := t.(*ast.Ident); !ok || id.Name != "stateTracker" {
+			continue
+		}
+		// position of "st.mu.Lock()" followed by "defer st.mu.Unlock()" among the top-level statements
+		pos := -1
+		for i := 0; i+1 < len(fd.Body.List); i++ {
+			if p.show(fd.Body.List[i]) == "st.mu.Lock()" && p.show(fd.Body.List[i+1]) == "defer st.mu.Unlock()" {
+				pos = i
+				break
+			}
+		}
+		pre := "none"
+		if pos == 0 {
+			pre = "first"
+		} else if pos > 0 {
+			// statements before the lock: allowed only if they do not mention st at all
+			touches := false
+			for _, s := range fd.Body.List[:pos] {
+				ast.Inspect(s, func(n ast.Node) bool {
+					if id, ok := n.(*ast.Ident); ok && id.Name == "st" {
+						touches = true
+					}
+					return true
+				})
+			}
+			if touches {
+				pre = "after-touching-st"
+			} else {
+				pre = "after-pure-prologue"
+			}
+		}
+		disc = append(disc, fd.Name.Name+":"+pre)
+	}
+	sort.Strings(disc)
+	o.strListDef("trackerLockDiscipline", disc, true)
 }
